@@ -983,6 +983,13 @@ func matchTypeCast(pkg *Package, typ types.Type, fn *internal.Elem, args []*inte
 				return pkg.cb.StructLit(t, len(args), false).stk.Pop(), nil
 			}
 		}
+		if len(args) == 1 { // a named numeric type: the same lowering as for the basic types
+			if b, ok := t.Underlying().(*types.Basic); ok && b.Info()&types.IsNumeric != 0 {
+				if ret, ok := CastFromBool(&pkg.cb, typ, args[0]); ok {
+					return ret, nil
+				}
+			}
+		}
 	}
 
 	switch len(args) {
